@@ -74,6 +74,8 @@ TParseRet ==
   /\ IsEvent("ParseRet")
   /\ (E.str \in DOMAIN texts /\ texts[E.str].ver = E.ver /\ texts[E.str].purpose = E.purpose) =>
         (E.ok /\ E.wire = texts[E.str].wire /\ E.footer = texts[E.str].footer)
+  \* what a parsed token shows (Display) is what was presented on the wire: one string per value (C09)
+  /\ E.ok => (E.wire = E.pwire /\ E.footer = E.pfooter)
   /\ UNCHANGED <<ivars, texts>>
 
 \* ---- unsealing ----------------------------------------------------------
